@@ -189,17 +189,20 @@ func verifHarness_C01_hist1(param int) {
 	verifReach("end")
 }
 
-// Two arbitrary operations after a shape (thorough tier).
+// Two operations after a shape (thorough tier): the first one of the ten state-changing kinds,
+// the second one arbitrary.
 //
-//verif:bounds 22 shapes x 2 arbitrary ops (25 kinds each) + drain; sizes <= 8 MB; loop unrolling 10
+//verif:bounds 22 shapes x first op in {Malloc, WriteBinary, WriteDirect, MallocAck, Flush, Append, Next, Peek, Slice, Release} x arbitrary second op (25 kinds) + drain; sizes <= 8 MB; loop unrolling 10
 //verif:also C02 C03
 //verif:tier thorough
-//verif:param 0 549
+//verif:param 0 219
 //verif:loop 10
 func verifHarness_C01_hist2(param int) {
-	v := verifShape(param / verifOpCount)
+	first := [10]int{verifOpMalloc, verifOpWriteBinary, verifOpWriteDirect, verifOpMallocAck, verifOpFlush,
+		verifOpAppend, verifOpNext, verifOpPeek, verifOpSlice, verifOpRelease}
+	v := verifShape(param / 10)
 	verifReach("shape")
-	v.step(param % verifOpCount)
+	v.step(first[param%10])
 	op2 := verifPick("op2", 0, verifOpCount-1)
 	v.step(op2)
 	verifReach("op2")
